@@ -145,17 +145,17 @@ func covMethods(c *Ctx) {
 					return true
 				}
 				tv, ok := pkg.TypesInfo.Types[cl]
-				if !ok || !core.IsMap(tv.Type) {
+				if !ok || !(core.IsMap(tv.Type) || core.IsSlice(tv.Type)) && tv.Type.Underlying() == nil {
 					return true
 				}
 				keys := map[string]bool{}
 				hits := 0
 				for _, el := range cl.Elts {
-					kv, ok := el.(*ast.KeyValueExpr)
-					if !ok {
-						continue
+					var keyExpr ast.Expr = el
+					if kv, ok := el.(*ast.KeyValueExpr); ok {
+						keyExpr = kv.Key
 					}
-					if s, ok := core.ConstString(pkg.TypesInfo, kv.Key); ok {
+					if s, ok := core.ConstString(pkg.TypesInfo, keyExpr); ok {
 						keys[s] = true
 						if upper[strings.ToUpper(s)] {
 							hits++
